@@ -13,13 +13,23 @@
   The operating system, the file system and the disk are *replaced* by this model:
     * a volatile view (what system calls observe) and a durable view (what survives power loss)
       of directories, directory entries and file contents;
-    * operations mkdir, creatTrunc (open 'wb'), write, fsyncFile, fsyncDir, close, plus the
-      markers begin (a set starts) / ret (the set returns);
+    * operations mkdir, creatTrunc (open 'wb'), write, fsyncFile, fsyncDir, close, rename
+      (os.replace), unlink, plus the markers begin (a set starts) / ret (the set returns);
     * `crash` = every image obtainable by keeping the durable view and, independently for each
       unsynced effect, none / all / (for a write) a byte prefix of it;
     * `recover` = what a fresh store reads for a key on such an image;
-    * two variants: `strict` (a new directory entry is durable only after fsync of the directory
-      holding it) and `journalled` (fsync(file) also persists the entry and its ancestors' entries).
+    * two variants: `strict` (a directory-entry update — creation, rename, unlink — is durable
+      only after fsync of the directory holding it) and `journalled` (fsync(file) also persists the
+      entry the file has *at that moment* and its ancestors' entries, ext4's behaviour for a newly
+      created file).  A rename/unlink is treated alike in both variants: durable only after fsync of
+      the directory (ext4 journals the rename, but nothing orders the journal commit before the set
+      returns; the property's "everything not explicitly synced is lost" is the strict variant).
+    * entry updates are kept per path as *alternatives* (`alt`): what the path may still show after
+      a crash if its pending entry updates are lost (absent, or the contents choices of the file it
+      named before).  The two entry updates of a rename (source removed, target re-pointed) are lost
+      independently — a superset of what an atomic rename allows, same per-path outcomes.  The
+      alternatives of a renamed-away source are a snapshot (exact as long as the moved file is not
+      modified again before the directory is synced, which `WF` guarantees across sets).
 
   The sequential cache (memory accounting, eviction) is C16 and is not repeated here.
 -/
@@ -63,13 +73,17 @@ structure Fs where
   vdirs  : List Path := []                 -- directories in the volatile namespace
   vfiles : List (Path × Bytes) := []       -- files in the volatile namespace with their contents
   ddirs  : List Path := []                 -- directories whose entry in the parent is durable
-  dents  : List Path := []                 -- files whose entry in the parent is durable
+  alt    : List (Path × List (Option Bytes)) := []
+                                           -- per path: what it may still show after a crash if its
+                                           -- unsynced entry updates are lost (none = absent);
+                                           -- empty = the entry is as durable as the directory says
   dcont  : List (Path × Bytes) := []       -- inode contents as of the last fsync (new inode: empty)
   pend   : List (Path × List Eff) := []    -- unsynced effects on the contents, oldest first
   opened : List Path := []                 -- files with an open descriptor
 deriving Repr
 
 def Fs.pendOf (fs : Fs) (f : Path) : List Eff := (fs.pend.lookup f).getD []
+def Fs.altOf (fs : Fs) (f : Path) : List (Option Bytes) := (fs.alt.lookup f).getD []
 def Fs.contOf (fs : Fs) (f : Path) : Bytes := (fs.vfiles.lookup f).getD []
 def Fs.isFile (fs : Fs) (f : Path) : Bool := (names fs.vfiles).contains f
 def Fs.isDir (fs : Fs) (d : Path) : Bool := d == [] || fs.vdirs.contains d
@@ -82,115 +96,12 @@ inductive Op
   | fsyncFile (f : Path)
   | fsyncDir (d : Path)
   | close (f : Path)
+  | rename (src dst : Path)           -- os.replace / os.rename: dst now names src's file
+  | unlink (f : Path)
   | ret                               -- the set returns to its caller
 deriving DecidableEq, Repr
 
-/-- effect of a file-system operation on both views (no precondition checks; see `ok`) -/
-def Fs.step (v : Variant) (fs : Fs) : Op → Fs
-  | .begin _ _ => fs
-  | .ret => fs
-  | .mkdir d => { fs with vdirs := d :: fs.vdirs }
-  | .creatTrunc f =>
-    if fs.isFile f then
-      { fs with vfiles := setKV fs.vfiles f []
-              , pend := setKV fs.pend f (fs.pendOf f ++ [Eff.trunc])
-              , opened := f :: fs.opened }
-    else
-      { fs with vfiles := setKV fs.vfiles f []
-              , dcont := setKV fs.dcont f []
-              , pend := setKV fs.pend f []
-              , opened := f :: fs.opened }
-  | .write f data =>
-    { fs with vfiles := setKV fs.vfiles f (fs.contOf f ++ data)
-            , pend := setKV fs.pend f (fs.pendOf f ++ [Eff.write (fs.contOf f).length data]) }
-  | .fsyncFile f =>
-    let fs1 := { fs with dcont := setKV fs.dcont f (fs.contOf f), pend := setKV fs.pend f [] }
-    match v with
-    | .strict => fs1
-    | .journalled => { fs1 with dents := f :: fs1.dents, ddirs := ancestors f ++ fs1.ddirs }
-  | .fsyncDir d =>
-    { fs with ddirs := fs.vdirs.filter (fun p => parent p == d) ++ fs.ddirs
-            , dents := (names fs.vfiles).filter (fun p => parent p == d) ++ fs.dents }
-  | .close f => { fs with opened := fs.opened.filter (· != f) }
-
-/-- machine state: file system + which set is in progress + the completed sets (latest first) -/
-structure St where
-  fs   : Fs := {}
-  cur  : Option (Path × Bytes) := none
-  done : List (Path × Bytes) := []
-deriving Repr
-
-def init : St := {}
-
-def step (v : Variant) (s : St) (op : Op) : St :=
-  match op with
-  | .begin k val => { s with cur := some (k, val) }
-  | .ret =>
-    match s.cur with
-    | some kv => { s with cur := none, done := kv :: s.done }
-    | none => s
-  | op => { s with fs := s.fs.step v op }
-
-def run (v : Variant) (s : St) (tr : List Op) : St := tr.foldl (step v) s
-
-/-- the durable view alone already determines `k ↦ val` -/
-def durableAs (fs : Fs) (k : Path) (val : Bytes) : Bool :=
-  fs.isFile k && fs.dcont.lookup k == some val && (fs.pendOf k).isEmpty &&
-  fs.dents.contains k && (ancestors k).all (fun a => fs.ddirs.contains a)
-
-def curKey (s : St) : Option Path := s.cur.map (·.1)
-
-/-- well-formedness of one operation in a state.  For the operations of a set of key `k`:
-    everything touches only `k`'s file and `k`'s ancestor directories; system-call preconditions
-    hold (so the model's outcome is the POSIX outcome); and at the return the volatile file holds
-    the full value, nothing of it is unsynced (the fsync came after the last write), the
-    descriptor is closed, the file's entry and the entries of all its ancestors are durable. -/
-def ok (s : St) : Op → Bool
-  | .begin k _ =>
-    s.cur.isNone && k != [] && !s.fs.isDir k && (ancestors k).all (fun a => !s.fs.isFile a) &&
-    s.fs.opened.isEmpty
-  | .mkdir d =>
-    match s.cur with
-    | some (k, _) => (ancestors k).contains d && !s.fs.isDir d && !s.fs.isFile d && s.fs.isDir (parent d)
-    | none => false
-  | .creatTrunc f =>
-    curKey s == some f && !s.fs.opened.contains f && s.fs.isDir (parent f) && !s.fs.isDir f
-  | .write f _ => curKey s == some f && s.fs.opened.contains f
-  | .fsyncFile f => curKey s == some f && s.fs.opened.contains f
-  | .fsyncDir d => s.cur.isSome && s.fs.isDir d
-  | .close f => curKey s == some f && s.fs.opened.contains f
-  | .ret =>
-    match s.cur with
-    | some (k, val) =>
-      !s.fs.opened.contains k && s.fs.vfiles.lookup k == some val && durableAs s.fs k val
-    | none => false
-
-/-- run a trace, checking every operation; `none` as soon as one is not well-formed -/
-def runWF (v : Variant) (s : St) : List Op → Option St
-  | [] => some s
-  | op :: tr => if ok s op then runWF v (step v s op) tr else none
-
-/-- the decidable trace predicate of the per-run obligation -/
-def WF (v : Variant) (tr : List Op) : Bool := (runWF v init tr).isSome
-
-/-! ### the abstract side, read off the trace alone -/
-
-/-- completed sets (latest first) and the set in progress, from the begin/ret markers only -/
-def ghost : Option (Path × Bytes) × List (Path × Bytes) → List Op → Option (Path × Bytes) × List (Path × Bytes)
-  | g, [] => g
-  | (cur, done), op :: tr =>
-    match op with
-    | .begin k v => ghost (some (k, v), done) tr
-    | .ret =>
-      match cur with
-      | some kv => ghost (none, kv :: done) tr
-      | none => ghost (cur, done) tr
-    | _ => ghost (cur, done) tr
-
-def inProgress (tr : List Op) : Option Path := (ghost (none, []) tr).1.map (·.1)
-def lastCompleted (tr : List Op) (k : Path) : Option Bytes := (ghost (none, []) tr).2.lookup k
-
-/-! ### crash -/
+/-! ### what one path may show after a crash -/
 
 def pwrite (c : Bytes) (off : Nat) (data : Bytes) : Bytes :=
   c.take off ++ List.replicate (off - c.length) 0 ++ data ++ c.drop (off + data.length)
@@ -213,11 +124,157 @@ def contentChoices (c : Bytes) : List Eff → List Bytes
     | none => contentChoices c es
     | some e' => contentChoices (applyEff c e') es
 
-/-- a file after the crash: absent (only if its entry is not durable) or present with one of the
-    obtainable contents -/
+/-- a path after the crash: one of its alternatives (pending entry updates lost), or what it names
+    now — absent, or the file with one of the obtainable contents -/
 def fileChoices (fs : Fs) (f : Path) : List (Option Bytes) :=
-  (if fs.dents.contains f then [] else [none]) ++
-  (contentChoices ((fs.dcont.lookup f).getD []) (fs.pendOf f)).map some
+  fs.altOf f ++
+  (if fs.isFile f then (contentChoices ((fs.dcont.lookup f).getD []) (fs.pendOf f)).map some else [none])
+
+def delKV {α : Type} (l : List (Path × α)) (k : Path) : List (Path × α) := l.filter (fun p => p.1 != k)
+
+/-- effect of a file-system operation on both views (no precondition checks; see `ok`) -/
+def Fs.step (v : Variant) (fs : Fs) : Op → Fs
+  | .begin _ _ => fs
+  | .ret => fs
+  | .mkdir d => { fs with vdirs := d :: fs.vdirs }
+  | .creatTrunc f =>
+    if fs.isFile f then
+      { fs with vfiles := setKV fs.vfiles f []
+              , pend := setKV fs.pend f (fs.pendOf f ++ [Eff.trunc])
+              , opened := f :: fs.opened }
+    else
+      { fs with vfiles := setKV fs.vfiles f []
+              , dcont := setKV fs.dcont f []
+              , pend := setKV fs.pend f []
+              , alt := setKV fs.alt f (fileChoices fs f)     -- the new entry may be lost
+              , opened := f :: fs.opened }
+  | .write f data =>
+    { fs with vfiles := setKV fs.vfiles f (fs.contOf f ++ data)
+            , pend := setKV fs.pend f (fs.pendOf f ++ [Eff.write (fs.contOf f).length data]) }
+  | .fsyncFile f =>
+    let fs1 := { fs with dcont := setKV fs.dcont f (fs.contOf f), pend := setKV fs.pend f [] }
+    match v with
+    | .strict => fs1
+    | .journalled => { fs1 with alt := delKV fs1.alt f, ddirs := ancestors f ++ fs1.ddirs }
+  | .fsyncDir d =>
+    { fs with ddirs := fs.vdirs.filter (fun p => parent p == d) ++ fs.ddirs
+            , alt := fs.alt.filter (fun p => parent p.1 != d) }
+  | .close f => { fs with opened := fs.opened.filter (· != f) }
+  | .rename src dst =>
+    -- dst names src's file; if the update is lost dst shows what it showed before and src is still there
+    { fs with vfiles := setKV (delKV fs.vfiles src) dst (fs.contOf src)
+            , dcont := setKV (delKV fs.dcont src) dst ((fs.dcont.lookup src).getD [])
+            , pend := setKV (delKV fs.pend src) dst (fs.pendOf src)
+            , alt := setKV (setKV fs.alt src (fileChoices fs src)) dst (fileChoices fs dst) }
+  | .unlink f =>
+    { fs with vfiles := delKV fs.vfiles f, dcont := delKV fs.dcont f, pend := delKV fs.pend f
+            , alt := setKV fs.alt f (fileChoices fs f) }
+
+/-- machine state: file system + which set is in progress + the completed sets (latest first) -/
+structure St where
+  fs   : Fs := {}
+  cur  : Option (Path × Bytes) := none
+  done : List (Path × Bytes) := []
+  scratch : List Path := []      -- paths other than the key that the set in progress has created
+deriving Repr
+
+def init : St := {}
+
+def curKey (s : St) : Option Path := s.cur.map (·.1)
+
+/-- scratch paths of the set in progress: every path other than the key it creates a file at -/
+def scratchStep (cur : Option Path) (scratch : List Path) : Op → List Path
+  | .creatTrunc f => if cur == some f || scratch.contains f then scratch else f :: scratch
+  | .ret => []
+  | _ => scratch
+
+def step (v : Variant) (s : St) (op : Op) : St :=
+  match op with
+  | .begin k val => { s with cur := some (k, val) }
+  | .ret =>
+    match s.cur with
+    | some kv => { s with cur := none, done := kv :: s.done, scratch := [] }
+    | none => { s with scratch := [] }
+  | op => { s with fs := s.fs.step v op, scratch := scratchStep (curKey s) s.scratch op }
+
+def run (v : Variant) (s : St) (tr : List Op) : St := tr.foldl (step v) s
+
+/-- the durable view alone already determines `k ↦ val` -/
+def durableAs (fs : Fs) (k : Path) (val : Bytes) : Bool :=
+  fs.isFile k && fs.dcont.lookup k == some val && (fs.pendOf k).isEmpty &&
+  (fs.altOf k).isEmpty && (ancestors k).all (fun a => fs.ddirs.contains a)
+
+/-- the path is durably absent: no file, no pending entry update that could bring one back -/
+def durablyAbsent (fs : Fs) (p : Path) : Bool := !fs.isFile p && (fs.altOf p).isEmpty
+
+/-- paths the set in progress may touch: its key and its scratch files -/
+def allowed (s : St) (p : Path) : Bool := curKey s == some p || s.scratch.contains p
+
+/-- well-formedness of one operation in a state.  For the operations of a set of key `k`:
+    everything touches only `k`'s file, `k`'s ancestor directories and scratch files (paths the set
+    itself created where no completed key lives); system-call preconditions hold (so the model's
+    outcome is the POSIX outcome); and at the return the volatile file holds the full value,
+    nothing of it is unsynced (the fsync came after the last write), the descriptor is closed,
+    the file's entry (including a rename that put it there) and the entries of all its ancestors
+    are durable, and every scratch file is durably gone. -/
+def ok (s : St) : Op → Bool
+  | .begin k _ =>
+    s.cur.isNone && k != [] && !s.fs.isDir k && (ancestors k).all (fun a => !s.fs.isFile a) &&
+    s.fs.opened.isEmpty && s.scratch.isEmpty
+  | .mkdir d =>
+    match s.cur with
+    | some (k, _) => (ancestors k).contains d && !s.fs.isDir d && !s.fs.isFile d && s.fs.isDir (parent d)
+    | none => false
+  | .creatTrunc f =>
+    s.cur.isSome && (allowed s f || (s.done.lookup f).isNone) &&
+    !s.fs.opened.contains f && s.fs.isDir (parent f) && !s.fs.isDir f
+  | .write f _ => allowed s f && s.fs.opened.contains f
+  | .fsyncFile f => allowed s f && s.fs.opened.contains f
+  | .fsyncDir d => s.cur.isSome && s.fs.isDir d
+  | .close f => allowed s f && s.fs.opened.contains f
+  | .rename src dst =>
+    allowed s src && allowed s dst && src != dst && s.fs.isFile src && !s.fs.opened.contains src &&
+    !s.fs.opened.contains dst && !s.fs.isDir dst && s.fs.isDir (parent dst)
+  | .unlink f => allowed s f && s.fs.isFile f && !s.fs.opened.contains f
+  | .ret =>
+    match s.cur with
+    | some (k, val) =>
+      s.fs.opened.isEmpty && s.fs.vfiles.lookup k == some val && durableAs s.fs k val &&
+      s.scratch.all (fun p => durablyAbsent s.fs p)
+    | none => false
+
+/-- run a trace, checking every operation; `none` as soon as one is not well-formed -/
+def runWF (v : Variant) (s : St) : List Op → Option St
+  | [] => some s
+  | op :: tr => if ok s op then runWF v (step v s op) tr else none
+
+/-- the decidable trace predicate of the per-run obligation -/
+def WF (v : Variant) (tr : List Op) : Bool := (runWF v init tr).isSome
+
+/-! ### the abstract side, read off the trace alone -/
+
+/-- completed sets (latest first), the set in progress and its scratch paths, from the trace
+    alone (begin/ret markers and the `creatTrunc` arguments) -/
+structure Ghost where
+  cur : Option (Path × Bytes) := none
+  done : List (Path × Bytes) := []
+  scratch : List Path := []
+
+def ghostStep (g : Ghost) : Op → Ghost
+  | .begin k v => { g with cur := some (k, v) }
+  | .ret =>
+    match g.cur with
+    | some kv => { cur := none, done := kv :: g.done, scratch := [] }
+    | none => { g with scratch := [] }
+  | op => { g with scratch := scratchStep (g.cur.map (·.1)) g.scratch op }
+
+def ghost (g : Ghost) (tr : List Op) : Ghost := tr.foldl ghostStep g
+
+def inProgress (tr : List Op) : Option Path := (ghost {} tr).cur.map (·.1)
+def lastCompleted (tr : List Op) (k : Path) : Option Bytes := (ghost {} tr).done.lookup k
+def scratchOf (tr : List Op) : List Path := (ghost {} tr).scratch
+
+/-! ### crash -/
 
 def crashFiles (fs : Fs) : List Path → List (List (Path × Bytes))
   | [] => [[]]
@@ -241,8 +298,13 @@ structure Image where
   files : List (Path × Bytes)
 deriving Repr, DecidableEq
 
+/-- paths that may name a file after the crash: the volatile files and the paths with pending
+    entry updates (e.g. a renamed-away temp file) -/
+def crashPaths (fs : Fs) : List Path :=
+  names fs.vfiles ++ (names fs.alt).filter (fun p => !(names fs.vfiles).contains p)
+
 def crash (fs : Fs) : List Image :=
-  (dirChoices fs).flatMap fun D => (crashFiles fs (names fs.vfiles)).map fun F => ⟨D, F⟩
+  (dirChoices fs).flatMap fun D => (crashFiles fs (crashPaths fs)).map fun F => ⟨D, F⟩
 
 /-- `KeyValueStorage(root).get(k)` on the image, before unpickling: the file's bytes, or `none`
     (→ `:undefined`, not a failure) when the path does not resolve -/
@@ -339,6 +401,8 @@ def showOp : Op → String
   | .fsyncFile f => s!"fsync:{showPath f}"
   | .fsyncDir d => s!"fsyncdir:{showPath d}"
   | .close f => s!"close:{showPath f}"
+  | .rename a b => s!"rename:{showPath a}:{showPath b}"
+  | .unlink f => s!"unlink:{showPath f}"
   | .ret => "ret"
 
 def parseOp (s : String) : Option Op :=
@@ -350,6 +414,8 @@ def parseOp (s : String) : Option Op :=
   | ["fsync", f] => (parsePath f).map .fsyncFile
   | ["fsyncdir", d] => (parsePath d).map .fsyncDir
   | ["close", f] => (parsePath f).map .close
+  | ["rename", a, b] => do pure (.rename (← parsePath a) (← parsePath b))
+  | ["unlink", f] => (parsePath f).map .unlink
   | ["ret"] => some .ret
   | _ => none
 
@@ -387,8 +453,8 @@ def digest (s : St) : String :=
   let dc := fs.dcont.map fun p => s!"{showPath p.1}@{toHex p.2}"
   let pe := (fs.pend.filter (fun p => !p.2.isEmpty)).map fun p => s!"{showPath p.1}@{p.2.length}"
   s!"vdirs={showSet (fs.vdirs.map showPath)} vfiles={showSet vf} ddirs={showSet (fs.ddirs.map showPath)} " ++
-  s!"dents={showSet (fs.dents.map showPath)} dcont={showSet dc} pend={showSet pe} " ++
-  s!"open={showSet (fs.opened.map showPath)} cur={(curKey s).elim "none" showPath} done={s.done.length}"
+  s!"pendingentries={showSet ((fs.alt.filter (fun p => !p.2.isEmpty)).map fun p => showPath p.1)} dcont={showSet dc} pend={showSet pe} " ++
+  s!"open={showSet (fs.opened.map showPath)} cur={(curKey s).elim "none" showPath} scratch={showSet (s.scratch.map showPath)} done={s.done.length}"
 
 /-- driver state: variant, machine state, whether every operation so far was well-formed -/
 structure DSt where
